@@ -33,9 +33,9 @@ def params_for(tier, seed):
         extra = rnd.sample(["s255", "s256", "s2e64", "s2e159"], 2)
         serials = [c for c in ALL_CLASSES if c in ("z0", "s1") or c in extra]
         return dict(owners=["A", "B"], serials=serials, bodies=2, max_ops=4, page_sizes=[0, 1, 2],
-                    queries="new", n_paths=30, path_len=14, chunks=12)
+                    queries="new", n_paths=30, path_len=14, n_deliver=8, chunks=12)
     return dict(owners=["A", "B"], serials=list(ALL_CLASSES), bodies=2, max_ops=5, page_sizes=[0, 1, 2, 3],
-                queries="new", n_paths=150, path_len=28, chunks=16)
+                queries="new", n_paths=150, path_len=28, n_deliver=60, chunks=16)
 
 
 def tla_set(xs):
@@ -287,6 +287,7 @@ def violation_from(j, chunk_lines, paths, p, origin, ct=None):
         sig = "%s:%s" % (what, d["ev"])
     detail += "script: %s\n" % json.dumps(script)
     files = {"script.ndjson": json.dumps(script) + "\n", "params.json": json.dumps(p),
+             "mode.txt": "deliver" if origin == "deliver" else "paths",
              "trace_prefix.ndjson": "".join(chunk_lines[max(0, idx - 3): idx + 1])}
     return vlib.Violation("C17", sig, detail, files)
 
@@ -439,6 +440,15 @@ def run(pid, tier, seed, replay):
     ptrace_path = os.path.join(sdir, "paths.ndjson")
     pstats = run_harness(vh, "paths", p, scripts_path, ptrace_path)
     vlib.log("[C17] J2 scripts on the real app: %s" % json.dumps(pstats, sort_keys=True))
+    # the same kind of scripts as signed transactions through ante handler, blocks and commits; queries over ABCI
+    dscripts = random_scripts(p, seed + 1000003, p["n_deliver"], p["path_len"])
+    dscripts_path = os.path.join(sdir, "dscripts.ndjson")
+    with open(dscripts_path, "w") as fh:
+        for sc in dscripts:
+            fh.write(json.dumps(sc) + "\n")
+    dtrace_path = os.path.join(sdir, "deliver.ndjson")
+    dstats = run_harness(vh, "deliver", p, dscripts_path, dtrace_path)
+    vlib.log("[C17] J2 signed transactions in blocks on the real app: %s" % json.dumps(dstats, sort_keys=True))
 
     j1, j1b, j1c = f_j1.result(), f_j1b.result(), f_j1c.result()
     pool.shutdown()
@@ -451,11 +461,13 @@ def run(pid, tier, seed, replay):
     # ---- J3
     glines = open(trace_path).readlines()
     plines = open(ptrace_path).readlines()
+    dlines = open(dtrace_path).readlines()
     paths = json.load(open(paths_path))
     t3 = time.time()
     results = [("graph", s, c, j) for s, c, j in validate_all(glines, p, keys_mod, sdir, "graph", p["chunks"])]
     results += [("paths", s, c, j) for s, c, j in validate_all(plines, p, keys_mod, sdir, "paths", max(2, p["chunks"] // 3))]
-    vlib.log("[C17] J3: %d lines validated by TLC in %.1fs" % (len(glines) + len(plines), time.time() - t3))
+    results += [("deliver", s, c, j) for s, c, j in validate_all(dlines, p, keys_mod, sdir, "deliver", max(2, p["chunks"] // 4))]
+    vlib.log("[C17] J3: %d lines validated by TLC in %.1fs" % (len(glines) + len(plines) + len(dlines), time.time() - t3))
     violations, drift, n_ct = [], 0, 0
     ct_seen = set()
     for origin, start, chunk, j in results:
@@ -474,7 +486,7 @@ def run(pid, tier, seed, replay):
     accepted_pairs, judged_states = set(), set()
     prev_sid = ""
     nq = 0
-    for ln in glines + plines:
+    for ln in glines + plines + dlines:
         d = json.loads(ln)
         if d["ev"] != "load" and d["ok"]:
             accepted_pairs.add((prev_sid, d["ev"], d["signer"], d["o"], d["s"], d["b"]))
@@ -493,26 +505,28 @@ def run(pid, tier, seed, replay):
     samples.append({"script": scripts[0][:8]})
     coverage = {
         "states": j1.distinct, "transitions": j1.generated,
-        "traces_validated_against_impl": gstats.get("segments", 0) + 1 + pstats.get("segments", 0),
-        "evaluations": gstats.get("steps", 0) + pstats.get("steps", 0),
+        "traces_validated_against_impl": gstats.get("segments", 0) + 1 + pstats.get("segments", 0) + dstats.get("segments", 0),
+        "evaluations": gstats.get("steps", 0) + pstats.get("steps", 0) + dstats.get("steps", 0),
         "query_results_judged": nq,
         "count_total_listings_incomplete": n_ct,
         "distinct_nontrivial": len(accepted_pairs) + len(judged_states),
         "rule": "graph walk: every edge (registry state, transaction) of TLC's bounded transaction graph executed once on the "
                 "real app from a stored representative of its source state; scripts: seeded random transaction sequences "
-                "from the empty registry. distinct_nontrivial = distinct (source registry, accepted transaction) pairs "
+                "from the empty registry, once through the emulated runTx and once (other scripts) as signed transactions "
+                "delivered in blocks with commits and ABCI queries. distinct_nontrivial = distinct (source registry, accepted transaction) pairs "
                 "+ distinct non-empty registries on which all queries (filters x page sizes, iterators, lookups) were judged",
         "samples": samples, "exhaustive": True, "drift_steps": drift, "binding_selftest": st,
         "configs": {"owners": p["owners"], "serials": {s: DEC[s] for s in p["serials"]}, "max_ops": p["max_ops"],
                     "page_sizes": p["page_sizes"], "bodies": p["bodies"], "keyorder": ["%s/%s" % k for k in keyorder]},
         "j1": {"distinct": j1.distinct, "generated": j1.generated, "depth": j1.depth, "wall_s": round(j1.wall_s, 1),
                "d4_variant_violates": j1b.violated, "asfound_variant_violates": j1c.violated},
-        "j2": {"edges": n_edges, "graph": gstats, "scripts": pstats},
-        "trace_lines": len(glines) + len(plines),
+        "j2": {"edges": n_edges, "graph": gstats, "scripts": pstats, "signed_tx_scripts": dstats},
+        "trace_lines": len(glines) + len(plines) + len(dlines),
     }
     assumptions = [
-        "a transaction is emulated as baseapp.runTx minus fees: GetSigners() must be exactly the signing account, "
-        "ValidateBasic, then the handler the app registered in its MsgServiceRouter on a CacheContext branch",
+        "graph walk and plain scripts: a transaction is emulated as baseapp.runTx minus fees: GetSigners() must be exactly the signing account, "
+        "ValidateBasic, then the handler the app registered in its MsgServiceRouter on a CacheContext branch; the "
+        "signed-transaction scripts go through the real ante handler, DeliverTx, Commit and ABCI Query instead",
         "in the graph walk one concrete store (an unwritten CacheContext branch) represents each abstract registry; the "
         "harness checks that every other way of reaching it yields byte-identical store contents",
         "the projected registry is read from the raw store values (x509 body -> owner CN, serial), not through the keeper",
@@ -535,7 +549,10 @@ def run_replay(pid, tier, seed, replay, vh, sdir, t0):
     keyorder = [tuple(x) for x in info["keyorder"]]
     keys_mod = keys_module(keyorder)
     out = os.path.join(sdir, "replay.ndjson")
-    stats = run_harness(vh, "paths", p, script, out)
+    mode = "paths"
+    if os.path.exists(os.path.join(replay, "mode.txt")):
+        mode = open(os.path.join(replay, "mode.txt")).read().strip() or "paths"
+    stats = run_harness(vh, mode, p, script, out)
     lines = open(out).readlines()
     j = validate(lines, p, keys_mod, sdir, "replay")
     for dl in j.drift_lines[:20]:
